@@ -10,7 +10,10 @@ Extracted (by name, wherever the assignment sits):
   tr31 KeyBlock._wrap_dispatch/_unwrap_dispatch           {str: <method name>}            -> [(key code points, "name")]
   cvv.generate_cvv / pin.generate_visa_pvv                dict literal passed to .translate -> [(int, int)]
   pin.*                                                   first argument of str.maketrans  -> code points
-A construct the translator does not recognise is an error (fails closed): the run reports the obligation as broken.
+Names are matched ignoring leading underscores and letter case, at class level or module level. A table whose source has a
+shape the translator does not know is emitted as `none`: the tie for that table is then unavailable (recorded in the
+evidence) and the property rests on the correspondence for it - an unrecognised shape is not a violation. A table the
+translator does find and that differs from the model breaks the corresponding theorem.
 """
 import ast
 import os
@@ -99,72 +102,108 @@ def parse(repo, mod):
     return ast.parse(open(path).read(), filename=path)
 
 
-def find_class(tree, name):
-    for n in tree.body:
-        if isinstance(n, ast.ClassDef) and n.name == name:
-            return n
-    raise TableError(f"class {name} not found")
+def norm(name):
+    return name.lstrip("_").lower()
+
+
+def assignments(tree, name):
+    """[(owner class name or None, value node)] for every module- or class-level assignment to `name`
+    (leading underscores and letter case are ignored, so a rename to a public or upper-case constant is still found)"""
+    out = []
+    for stmt in tree.body:
+        n, v = target_name(stmt)
+        if n is not None and norm(n) == norm(name):
+            out.append((None, v))
+        if isinstance(stmt, ast.ClassDef):
+            for st in stmt.body:
+                n, v = target_name(st)
+                if n is not None and norm(n) == norm(name):
+                    out.append((stmt.name, v))
+    return out
+
+
+def find_table(tree, name, owner, conv):
+    """the table `name` as seen from class `owner`: the class's own assignment if there is exactly one, else a single
+    module-level one, else a single assignment in any class; None (tie unavailable) when the source has another shape"""
+    hits = assignments(tree, name)
+    own = [v for o, v in hits if o == owner]
+    mod = [v for o, v in hits if o is None]
+    for cand in (own, mod, [v for _, v in hits]):
+        if len(cand) == 1:
+            try:
+                return conv(cand[0])
+            except TableError:
+                return None
+        if len(cand) > 1:
+            return None
+    return None
 
 
 def find_fn(tree, name):
     for n in ast.walk(tree):
         if isinstance(n, (ast.FunctionDef, ast.AsyncFunctionDef)) and n.name == name:
             return n
-    raise TableError(f"function {name} not found")
-
-
-def class_table(cls, name, conv):
-    hits = [v for stmt in cls.body for n, v in [target_name(stmt)] if n == name]
-    if len(hits) != 1:
-        raise TableError(f"{cls.name}.{name}: {len(hits)} class-level assignments")
-    return conv(hits[0])
+    return None
 
 
 def translate_args(fn):
-    """dict literals passed to <x>.translate(...) / str.translate(x, ...) inside fn"""
+    """tables passed to <x>.translate(...) inside fn: a dict literal {int: int} or str.maketrans("from", "to")"""
     out = []
+    if fn is None:
+        return out
     for n in ast.walk(fn):
         if isinstance(n, ast.Call) and isinstance(n.func, ast.Attribute) and n.func.attr == "translate" and n.args:
             arg = n.args[-1]
-            if isinstance(arg, ast.Dict):
-                out.append(int_int_dict(arg))
+            try:
+                if isinstance(arg, ast.Dict):
+                    out.append(int_int_dict(arg))
+                elif (isinstance(arg, ast.Call) and isinstance(arg.func, ast.Attribute) and arg.func.attr == "maketrans"
+                      and len(arg.args) == 2):
+                    a, b = const_str(arg.args[0]), const_str(arg.args[1])
+                    if len(a) == len(b):
+                        out.append(dedupe(list(zip(cps(a), cps(b)))))
+            except TableError:
+                pass
     return out
 
 
 def maketrans_from(tree):
     out = []
     for n in ast.walk(tree):
-        if isinstance(n, ast.Call) and isinstance(n.func, ast.Attribute) and n.func.attr == "maketrans" and n.args:
-            out.append(cps(const_str(n.args[0])))
-    return out
+        if isinstance(n, ast.Call) and isinstance(n.func, ast.Attribute) and n.func.attr == "maketrans" and len(n.args) == 2:
+            try:
+                out.append(cps(const_str(n.args[0])))
+            except TableError:
+                return None
+    return out or None
+
+
+NAMES = ["tools_ascii_n", "tools_ascii_an", "tools_ascii_pa", "tools_ascii_h", "header_mac_len", "header_block_size",
+         "keyblock_mac_len", "keyblock_block_size", "keyblock_algo_max_key_len", "wrap_dispatch", "unwrap_dispatch",
+         "cvv_translate", "pvv_translate", "ibm_maketrans_from"]
 
 
 def extract(repo):
-    t = {}
+    """every table the translator recognises in the source; a table whose source has a shape the translator does not
+    know (moved, renamed beyond case / underscores, computed) is None: its tie is unavailable, which is not a violation"""
+    t = dict.fromkeys(NAMES)
     tools = parse(repo, "tools")
     for name in ("_ascii_n", "_ascii_an", "_ascii_pa", "_ascii_h"):
-        hits = [v for stmt in tools.body for n, v in [target_name(stmt)] if n == name]
-        if len(hits) != 1:
-            raise TableError(f"tools.{name}: {len(hits)} module-level assignments")
-        t["tools" + name] = frozenset_of(hits[0])
+        t["tools" + name] = find_table(tools, name, None, frozenset_of)
     tr31 = parse(repo, "tr31")
-    header, kb = find_class(tr31, "Header"), find_class(tr31, "KeyBlock")
-    t["header_mac_len"] = class_table(header, "_version_id_key_block_mac_len", str_int_dict)
-    t["header_block_size"] = class_table(header, "_version_id_algo_block_size", str_int_dict)
-    t["keyblock_mac_len"] = class_table(kb, "_version_id_key_block_mac_len", str_int_dict)
-    t["keyblock_block_size"] = class_table(kb, "_version_id_algo_block_size", str_int_dict)
-    t["keyblock_algo_max_key_len"] = class_table(kb, "_algo_id_max_key_len", str_int_dict)
-    t["wrap_dispatch"] = class_table(kb, "_wrap_dispatch", str_name_dict)
-    t["unwrap_dispatch"] = class_table(kb, "_unwrap_dispatch", str_name_dict)
+    t["header_mac_len"] = find_table(tr31, "_version_id_key_block_mac_len", "Header", str_int_dict)
+    t["header_block_size"] = find_table(tr31, "_version_id_algo_block_size", "Header", str_int_dict)
+    t["keyblock_mac_len"] = find_table(tr31, "_version_id_key_block_mac_len", "KeyBlock", str_int_dict)
+    t["keyblock_block_size"] = find_table(tr31, "_version_id_algo_block_size", "KeyBlock", str_int_dict)
+    t["keyblock_algo_max_key_len"] = find_table(tr31, "_algo_id_max_key_len", "KeyBlock", str_int_dict)
+    t["wrap_dispatch"] = find_table(tr31, "_wrap_dispatch", "KeyBlock", str_name_dict)
+    t["unwrap_dispatch"] = find_table(tr31, "_unwrap_dispatch", "KeyBlock", str_name_dict)
+    pin = parse(repo, "pin")
     cvv = translate_args(find_fn(parse(repo, "cvv"), "generate_cvv"))
-    pvv = translate_args(find_fn(parse(repo, "pin"), "generate_visa_pvv"))
-    if len(cvv) != 1 or len(pvv) != 1:
-        raise TableError(f"expected one literal translate table in generate_cvv / generate_visa_pvv, found {len(cvv)} / {len(pvv)}")
-    t["cvv_translate"], t["pvv_translate"] = cvv[0], pvv[0]
-    mk = maketrans_from(parse(repo, "pin"))
-    if not mk:
-        raise TableError("no str.maketrans call in pin.py")
-    t["ibm_maketrans_from"] = mk
+    pvv = translate_args(find_fn(pin, "generate_visa_pvv"))
+    t["cvv_translate"] = cvv[0] if len(cvv) == 1 else None
+    t["pvv_translate"] = pvv[0] if len(pvv) == 1 else None
+    t["ibm_maketrans_from"] = maketrans_from(pin)
     return t
 
 
@@ -172,18 +211,23 @@ def lean_nats(xs):
     return "[" + ", ".join(str(x) for x in xs) + "]"
 
 
+def opt(ty, body):
+    return f"Option ({ty}) := " + ("none" if body is None else f"some {body}")
+
+
 def emit(t, path):
-    L = ["/-! GENERATED on every run by harness/tables.py from the Python source under the repository's psec/ directory. Do not edit. -/",
+    L = ["/-! GENERATED on every run by harness/tables.py from the Python source under the repository's psec/ directory. Do not edit.",
+         "`none` = the translator did not recognise the shape of this table in the source (the tie is then unavailable). -/",
          "namespace Psec.Generated.Tables", ""]
     for name in ("tools_ascii_n", "tools_ascii_an", "tools_ascii_pa", "tools_ascii_h"):
-        L.append(f"def {name} : List Nat := {lean_nats(t[name])}")
+        L.append(f"def {name} : " + opt("List Nat", None if t[name] is None else lean_nats(t[name])))
     for name in ("header_mac_len", "header_block_size", "keyblock_mac_len", "keyblock_block_size", "keyblock_algo_max_key_len"):
-        L.append(f"def {name} : List (List Nat × Nat) := [" + ", ".join(f"({lean_nats(k)}, {v})" for k, v in t[name]) + "]")
+        L.append(f"def {name} : " + opt("List (List Nat × Nat)", None if t[name] is None else "[" + ", ".join(f"({lean_nats(k)}, {v})" for k, v in t[name]) + "]"))
     for name in ("wrap_dispatch", "unwrap_dispatch"):
-        L.append(f"def {name} : List (List Nat × String) := [" + ", ".join(f'({lean_nats(k)}, "{v}")' for k, v in t[name]) + "]")
+        L.append(f"def {name} : " + opt("List (List Nat × String)", None if t[name] is None else "[" + ", ".join(f'({lean_nats(k)}, "{v}")' for k, v in t[name]) + "]"))
     for name in ("cvv_translate", "pvv_translate"):
-        L.append(f"def {name} : List (Nat × Nat) := [" + ", ".join(f"({k}, {v})" for k, v in t[name]) + "]")
-    L.append("def ibm_maketrans_from : List (List Nat) := [" + ", ".join(lean_nats(x) for x in t["ibm_maketrans_from"]) + "]")
+        L.append(f"def {name} : " + opt("List (Nat × Nat)", None if t[name] is None else "[" + ", ".join(f"({k}, {v})" for k, v in t[name]) + "]"))
+    L.append("def ibm_maketrans_from : " + opt("List (List Nat)", None if t["ibm_maketrans_from"] is None else "[" + ", ".join(lean_nats(x) for x in t["ibm_maketrans_from"]) + "]"))
     L += ["", "end Psec.Generated.Tables"]
     src = "\n".join(L) + "\n"
     old = open(path).read() if os.path.exists(path) else None
@@ -197,19 +241,11 @@ def emit(t, path):
 
 
 def run(repo, out):
-    """returns (tables or None, error text or None); on a translation error the previous file is replaced by one that
-    does not define the tables, so the obligations over it cannot be discharged from a stale copy"""
+    """returns (tables, error text or None). A table the translator cannot locate is None in the result and `none` in the
+    Lean file. Only a source file that cannot be read or parsed at all is an error."""
     try:
         t = extract(repo)
-    except (TableError, SyntaxError, OSError) as e:
-        src = ("/-! GENERATED by harness/tables.py: the translator could not read the tables from the source -/\n"
-               "namespace Psec.Generated.Tables\n"
-               f"-- {str(e)[:200]}\n"
-               "end Psec.Generated.Tables\n")
-        old = open(out).read() if os.path.exists(out) else None
-        if old != src:
-            with open(out, "w") as fh:
-                fh.write(src)
+    except (SyntaxError, OSError) as e:
         return None, str(e)
     emit(t, out)
     return t, None
